@@ -305,3 +305,71 @@ Proof.
     destruct (key_eqb_spec k (KUser p)) as [->|N2]; [apply rent_transition_exempt; proj_simpl; cbn [lamports]; rewrite wf_len0; lia|].
     apply rent_transition_same; reflexivity.
 Qed.
+
+(* ------------------------------------------------------------------------------------------------------------------ *)
+(* non-vacuity (part 2)                                                                                                *)
+(* epoch 5 just after its grace period: nothing posted yet; KUser 2 / KUser 3 are the accountants, KUser 1 pays *)
+Definition ex13_cfg : rd_config := ex_cfg <| c_rewards_accountant := KUser 3 |>.
+Definition ex13_fresh : dist := dist_default <| d_epoch := 5 |> <| d_relay := 6000 |> <| d_calc_allowed_ts := 10 |>.
+Definition ex13_world (d : dist) (tail : list N) (extra_lamports : N) : world :=
+  put (put (put (world0 <| now := 1000 |>)
+    KRdConfig (ex_acct (rent LEN_CONFIG_ALLOC) LEN_CONFIG_ALLOC (DConfig ex13_cfg)))
+    (KRdDist 5) (ex_acct (rent (LEN_DIST + N.of_nat (length tail)) + extra_lamports) (LEN_DIST + N.of_nat (length tail)) (DDist d tail)))
+    (KUser 1) (ex_wallet 1000000000).
+Definition ex13_keys : list key := [KRdConfig; KRdDist 5; KUser 1; KUser 2; KUser 3; KSystem].
+Definition agree (W' : world) (F : key -> acct) : bool := forallb (fun k => acct_eqb (get W' k) (purge_acct (F k))) ex13_keys.
+
+Example configure_debt_progress_nonvacuous :
+  configure_debt_ready (ex13_world ex13_fresh [] 0) 2 5 ex13_cfg ex13_fresh [] /\
+  let '(W', ok) := exec_tx (ex13_world ex13_fresh [] 0)
+                     (rd_tx [KUser 2] (RConfigureDebt 2 800 (tree_root PRE_DEBT ex_debts)) (sdk_configure_debt (KUser 2) 5)) in
+  ok = true /\ agree W' (configure_debt_acct (ex13_world ex13_fresh [] 0) 5 2 800 (tree_root PRE_DEBT ex_debts) ex13_fresh []) = true.
+Proof. split; [constructor; closed|]. vm_compute. repeat split. Qed.
+
+Definition ex13_posted : dist := ex13_fresh <| d_total_validators := 2 |> <| d_total_debt := 800 |> <| d_debt_root := tree_root PRE_DEBT ex_debts |>.
+Example finalize_debt_progress_nonvacuous :
+  let W := ex13_world ex13_posted [] 0 in
+  finalize_debt_ready W 2 5 ex13_cfg ex13_posted [] /\ wallet_funds W 1 (finalize_debt_topup W 5 ex13_posted) /\
+  finalize_debt_topup W 5 ex13_posted = 6960 /\
+  let '(W', ok) := exec_tx W (rd_tx [KUser 2; KUser 1] RFinalizeDebt (sdk_finalize_debt (KUser 2) 5 (KUser 1))) in
+  ok = true /\ agree W' (finalize_debt_acct W 5 1 ex13_posted []) = true /\
+  get W' (KRdDist 5) = ex_acct (rent (LEN_DIST + 1)) (LEN_DIST + 1) (DDist (fd_dist ex13_posted []) [0]).
+Proof. cbv zeta. split; [constructor; closed|]. split; [constructor; closed|]. vm_compute. repeat split. Qed.
+Example finalize_debt_zero_progress_nonvacuous :
+  let d := ex13_fresh in let W := ex13_world d [] 0 in
+  finalize_debt_ready W 2 5 ex13_cfg d [] /\
+  let '(W', ok) := exec_tx W (rd_tx [KUser 2; KUser 1] RFinalizeDebt (sdk_finalize_debt (KUser 2) 5 (KUser 1))) in
+  ok = true /\ agree W' (finalize_debt_zero_acct W 5 d []) = true.
+Proof. cbv zeta. split; [constructor; closed|]. vm_compute. repeat split. Qed.
+(* a tree of more than 8 * 10 240 leaves cannot be finalized: the bitmap does not fit one resize *)
+Example finalize_debt_large_refuted :
+  let d := ex13_posted <| d_total_validators := 81921 |> in let W := ex13_world d [] 0 in
+  finalize_debt_ready W 2 5 ex13_cfg d [] /\ wallet_funds W 1 (finalize_debt_topup W 5 d) /\
+  snd (exec_tx W (rd_tx [KUser 2; KUser 1] RFinalizeDebt (sdk_finalize_debt (KUser 2) 5 (KUser 1)))) = false.
+Proof. cbv zeta. split; [constructor; closed|]. split; [constructor; closed|]. vm_compute. reflexivity. Qed.
+
+Definition ex13_final : dist := fd_dist ex13_posted [].
+Example enable_write_off_progress_nonvacuous :
+  let W := ex13_world ex13_final [0] 0 in
+  enable_write_off_ready W 5 ex13_cfg ex13_final [0] /\ wallet_funds W 1 (enable_write_off_topup W 5 ex13_final) /\
+  let '(W', ok) := exec_tx W (rd_tx [KUser 1] REnableWriteOff (sdk_enable_write_off 5 (KUser 1))) in
+  ok = true /\ agree W' (enable_write_off_acct W 5 1 ex13_final [0]) = true /\
+  get W' (KRdDist 5) = ex_acct (rent (LEN_DIST + 2)) (LEN_DIST + 2) (DDist (ew_dist ex13_final [0]) [0; 0]).
+Proof. cbv zeta. split; [constructor; closed|]. split; [constructor; closed|]. vm_compute. repeat split. Qed.
+
+Definition ex13_rewards_posted : dist := ex13_final <| d_total_contributors := 2 |> <| d_rewards_root := tree_root PRE_REWARD ex_rewards |>.
+Example configure_rewards_progress_nonvacuous :
+  let W := ex13_world ex13_final [0] 0 in
+  configure_rewards_ready W 3 5 ex13_cfg ex13_final [0] /\
+  let '(W', ok) := exec_tx W (rd_tx [KUser 3] (RConfigureRewards 2 (tree_root PRE_REWARD ex_rewards)) (sdk_configure_rewards (KUser 3) 5)) in
+  ok = true /\ agree W' (configure_rewards_acct W 5 2 (tree_root PRE_REWARD ex_rewards) ex13_final [0]) = true /\
+  data (get W' (KRdDist 5)) = DDist ex13_rewards_posted [0].
+Proof. cbv zeta. split; [constructor; closed|]. vm_compute. repeat split. Qed.
+Example finalize_rewards_progress_nonvacuous :
+  let W := ex13_world ex13_rewards_posted [0] 0 in
+  finalize_rewards_ready W 5 ex13_cfg ex13_rewards_posted [0] /\ wallet_funds W 1 (finalize_rewards_amount W 5 ex13_rewards_posted) /\
+  finalize_rewards_amount W 5 ex13_rewards_posted = 2 * 6000 + 6960 /\
+  let '(W', ok) := exec_tx W (rd_tx [KUser 1] RFinalizeRewards (sdk_finalize_rewards (KUser 1) 5)) in
+  ok = true /\ agree W' (finalize_rewards_acct W 5 1 ex13_rewards_posted [0]) = true /\
+  get W' (KRdDist 5) = ex_acct (rent (LEN_DIST + 2) + 12000) (LEN_DIST + 2) (DDist (fr_dist ex13_rewards_posted [0]) [0; 0]).
+Proof. cbv zeta. split; [constructor; closed|]. split; [constructor; closed|]. vm_compute. repeat split. Qed.
